@@ -403,11 +403,19 @@ func c32DrawCfg(t *rapid.T, rec *ev.Recorder) c32Cfg {
 	// daemon: start time is aligned to the interval (storage.GetStartTime)
 	c.Now = (1_700_000_000/int64(c.Interval) + rapid.Int64Range(0, 1000).Draw(t, "nowOffset")) * int64(c.Interval)
 	// Known findings: steer the ring size away from the affected arithmetic.
-	for i := 0; i < 8; i++ {
+	for i := 0; i < 40 && os.Getenv("VERIF_C32_NO_EXCLUSIONS") == ""; i++ {
 		if c32WalkNeverEnds(c.N, c.PushAfter, c.Agg) {
-			// cannot be executed at all (the call never returns) — always excluded, see report.
+			// cannot be executed at all (the first EmitFlowCollections call with a sink never returns)
+			// — always excluded, see report.  bucketsToAggregate==1 is affected for every ring size.
 			rec.Excluded(c32SigNonTerm)
-			c.N++
+			if c.Agg == 1 {
+				c.Agg = 2
+				if c.N < c.PushAfter+c.Agg+2 {
+					c.N = c.PushAfter + c.Agg + 2
+				}
+			} else {
+				c.N++
+			}
 			continue
 		}
 		if c32WalkWraps(c.N, c.PushAfter, c.Agg) && ev.Known(c32SigWrap) {
@@ -416,6 +424,9 @@ func c32DrawCfg(t *rapid.T, rec *ev.Recorder) c32Cfg {
 			continue
 		}
 		break
+	}
+	if os.Getenv("VERIF_C32_NO_EXCLUSIONS") == "" && (c32WalkNeverEnds(c.N, c.PushAfter, c.Agg) || (c32WalkWraps(c.N, c.PushAfter, c.Agg) && ev.Known(c32SigWrap))) {
+		t.Fatalf("HARNESS-GAP: could not steer the configuration %+v away from the known findings", c)
 	}
 	return c
 }
@@ -431,7 +442,7 @@ func c32NewRing(c c32Cfg, clock *int64) *storage.BucketRing {
 func TestVerifC32Ring(t *testing.T) {
 	ev.Quiet()
 	rec := ev.New("C32", "ring",
-		"rapid state machine over storage.BucketRing (ring 5..12 buckets, interval 1/2/5/15 s, pushAfter 0..3, bucketsToAggregate 1..4): flows of 4 keys with start times in the current/future/late/oldest buckets and outside history, single and multi rollovers with or without sink, sink attach (EmitFlowCollections) and detach, List/Statistics/NumFlows over aligned and unaligned ranges, full per-bucket sweep at the end. Non-trivial = a late flow landed in a not-yet-emitted past bucket, a rollover evicted a non-empty bucket and the sink received >=1 non-empty window; distinct = op-kind sequence",
+		"rapid state machine over storage.BucketRing (ring 5..12 buckets, interval 1/2/5/15 s, pushAfter 0..3, bucketsToAggregate 2..4 (1 is drawn but always steered away: known finding): flows of 4 keys with start times in the current/future/late/oldest buckets and outside history, single and multi rollovers with or without sink, sink attach (EmitFlowCollections) and detach, List/Statistics/NumFlows over aligned and unaligned ranges, full per-bucket sweep at the end. Non-trivial = a late flow landed in a not-yet-emitted past bucket, a rollover evicted a non-empty bucket and the sink received >=1 non-empty window; distinct = op-kind sequence",
 		"acceptance is defined by the ring's own BeginningOfHistory/EndOfHistory accessors",
 		"for bounds that are not bucket aligned only the sandwich (fully covered buckets <= result <= touched buckets) is required",
 		"Statistics results are compared as allowed/denied totals (in+out) per policy, packets and bytes")
@@ -546,11 +557,18 @@ func TestVerifC32Ring(t *testing.T) {
 			afterEmit(t, "Rollover")
 		}
 
-		drawRange := func(t *rapid.T) (int64, int64, bool) {
+		drawRange := func(t *rapid.T, inHistory bool) (int64, int64, bool) {
 			boh, eoh := hist()
 			nb := (eoh - boh) / I
-			a := rapid.Int64Range(-1, nb).Draw(t, "rangeFromBucket")
-			b := rapid.Int64Range(a+1, nb+1).Draw(t, "rangeToBucket")
+			var a, b int64
+			if inHistory {
+				// both bounds inside [BeginningOfHistory, EndOfHistory): Statistics/NumFlows can resolve them
+				a = rapid.Int64Range(0, nb-2).Draw(t, "rangeFromBucket")
+				b = rapid.Int64Range(a+1, nb-1).Draw(t, "rangeToBucket")
+			} else {
+				a = rapid.Int64Range(-1, nb).Draw(t, "rangeFromBucket")
+				b = rapid.Int64Range(a+1, nb+1).Draw(t, "rangeToBucket")
+			}
 			gte, lt := boh+a*I, boh+b*I
 			aligned := true
 			if I > 1 && rapid.IntRange(0, 3).Draw(t, "unaligned") == 0 {
@@ -605,7 +623,7 @@ func TestVerifC32Ring(t *testing.T) {
 				afterEmit(t, "EmitFlowCollections on sink change")
 			},
 			"list": func(t *rapid.T) {
-				gte, lt, aligned := drawRange(t)
+				gte, lt, aligned := drawRange(t, rapid.Bool().Draw(t, "inHistory"))
 				sb := rapid.SampledFrom([]proto.SortBy{proto.SortBy_Time, proto.SortBy_Time, proto.SortBy_DestName, proto.SortBy_SourceNamespace}).Draw(t, "sortBy")
 				m.checkList(t, ring, gte, lt, sb)
 				if !aligned {
@@ -614,7 +632,7 @@ func TestVerifC32Ring(t *testing.T) {
 				ops = append(ops, "l")
 			},
 			"stats": func(t *rapid.T) {
-				gte, lt, aligned := drawRange(t)
+				gte, lt, aligned := drawRange(t, rapid.IntRange(0, 4).Draw(t, "anyRange") != 0)
 				if m.checkStats(t, ring, gte, lt, rapid.Bool().Draw(t, "bytes"), rapid.Bool().Draw(t, "series")) {
 					classes["stats-range-outside-history-error"] = true
 				} else {
@@ -626,7 +644,7 @@ func TestVerifC32Ring(t *testing.T) {
 				ops = append(ops, "q")
 			},
 			"numFlows": func(t *rapid.T) {
-				gte, lt, _ := drawRange(t)
+				gte, lt, _ := drawRange(t, true)
 				boh, eoh := hist()
 				if gte < boh || lt >= eoh {
 					return // NumFlows cannot report the error it gets for bounds outside history
@@ -682,8 +700,9 @@ func TestVerifC32KnownWalkWraps(t *testing.T) {
 }
 
 func c32KnownWalkWraps(t *testing.T) {
-	// ring of 8 buckets, pushAfter 1, 2 buckets per window: (8-1-1)%2 == 0
-	cfg := c32Cfg{N: 8, Interval: 15, PushAfter: 1, Agg: 2, Now: 1_700_000_010 / 15 * 15}
+	// Production ring size (242 buckets of 15 s) with EMIT_AFTER_SECONDS=15 (pushAfter 1) and the default
+	// 5 m emitter window (20 buckets): (242-1-1)%20 == 0.
+	cfg := c32Cfg{N: 242, Interval: 15, PushAfter: 1, Agg: 20, Now: 1_700_000_010 / 15 * 15}
 	clock := cfg.Now
 	ring := c32NewRing(cfg, &clock)
 	keys := c32Keys()
@@ -693,12 +712,13 @@ func c32KnownWalkWraps(t *testing.T) {
 	ring.AddFlow(&types.Flow{Key: keys[0].key, StartTime: eoh - 2*15, EndTime: eoh - 2*15 + 1, PacketsIn: 1, BytesIn: 10,
 		SourceLabels: unique.Make(""), DestLabels: unique.Make("")})
 	var windows [][2]int64
-	for i := 0; i < 4; i++ {
+	for i := 0; i < 25; i++ {
 		ring.Rollover(sink)
 		for _, c := range sink.take() {
+			t.Logf("rollover %d: sink received window [%d,%d) with %d flow(s), packetsIn=%d", i+1, c.StartTime, c.EndTime, len(c.Flows), c.Flows[0].PacketsIn)
 			for _, w := range windows {
 				if c.StartTime < w[1] && w[0] < c.EndTime {
-					t.Fatalf("window [%d,%d) emitted after overlapping window [%d,%d): the flow was sent to the sink twice", c.StartTime, c.EndTime, w[0], w[1])
+					t.Fatalf("window [%d,%d) emitted although the overlapping window [%d,%d) was emitted before: the flow was sent to the sink twice", c.StartTime, c.EndTime, w[0], w[1])
 				}
 			}
 			windows = append(windows, [2]int64{c.StartTime, c.EndTime})
